@@ -24,7 +24,7 @@ ASSUMPTIONS = ["when several refusal reasons hold at once (e.g. disqualified and
                "a model 'carries a disqualification' when model.disqualification is non-empty"]
 REQUIRED_REACH = {"event.fit": 24, "event.predict": 200, "gate.fit_refused": 6, "gate.fit_overridden": 6, "gate.predict_refused_dq": 10,
                   "gate.predict_overridden": 10, "gate.predict_refused_foreign": 40, "gate.stored_model_events": 60, "gate.poor_fit_model": 2,
-                  "gate.unfitted": 6}
+                  "gate.unfitted": 6, "stored.disqualification_kind:missing_monthly_temperature_data": 1, "stored.disqualification_kind:incorrect_number_of_total_days": 1}
 
 VIOL = []
 EVENTS = []
@@ -159,6 +159,9 @@ def run_case(spec):
         add("model-cannot-be-stored:%s:%s" % (fam.kind, type(e).__name__), "to_json/from_json raised %s: %s" % (type(e).__name__, str(e)[:160]), **tag)
     for vname, mv in variants.items():
         vdq = names(mv.disqualification)
+        if vname == "stored":
+            for nm in model_dq:
+                I.reach("stored.disqualification_kind:" + nm)
         if vname == "stored" and vdq != model_dq:
             add("disqualification-not-restored:%s" % fam.kind, "stored model carries %s, the fitted one %s" % (vdq, model_dq), **tag)
         for iname, (obj, foreign, tzrel) in inputs.items():
@@ -201,7 +204,8 @@ def gen_cases(tier, seed):
     k = 0
     combos = [(f, d) for d in defects for f in fams]
     if q:
-        combos = [(f, d) for (f, d) in combos if d in ("none", "too_short", "poor_fit")] + [("daily:current", "day_gaps"), ("hourly:default", "month_gap")]
+        combos = [(f, d) for (f, d) in combos if d in ("none", "too_short", "poor_fit")] + [("daily:current", "day_gaps"), ("hourly:default", "month_gap"),
+                                                                                          ("daily:current", "month_gap"), ("billing", "month_gap"), ("daily:legacy", "temp_run")]
     else:
         combos = combos * 3
         # developer / custom profiles too (thorough): the gate must not depend on the profile
